@@ -289,9 +289,17 @@ def _stmt_start(body, pos):
 
 
 def _parse_chain(body, it):
-    """body[it:] starts with `.iter()`; parse `.map(|P| E)`* then the terminal.  Returns
-    (closures [(pat, expr)], terminal_kind, terminal_arg, end_index) or None."""
+    """body[it:] starts with `.iter()`; parse [.cloned()|.copied()] [.zip(R2.iter())] `.map(|P| E)`*
+    then the terminal.  Returns (zip_recv or None, closures [(pat, expr)], kind, arg, end) or None."""
     k = it + len(".iter()")
+    m = re.match(r"\s*\.(cloned|copied)\(\)", body[k:])
+    if m:
+        k += m.end()
+    zip_recv = None
+    m = re.match(r"\s*\.zip\(\s*([\w.\s]+?)\s*\.iter\(\)\s*\)", body[k:])
+    if m:
+        zip_recv = re.sub(r"\s+", "", m.group(1))
+        k += m.end()
     closures = []
     while True:
         m = re.match(r"\s*\.map\(", body[k:])
@@ -309,10 +317,10 @@ def _parse_chain(body, it):
         k = c + 1
     m = re.match(r"\s*\.sum::<(\w+)>\(\)", body[k:])
     if m:
-        return closures, "sum", m.group(1), k + m.end()
-    m = re.match(r"\s*\.collect_vec\(\)", body[k:])
+        return zip_recv, closures, "sum", m.group(1), k + m.end()
+    m = re.match(r"\s*\.collect(?:_vec)?\(\)", body[k:])
     if m:
-        return closures, "collect", None, k + m.end()
+        return zip_recv, closures, "collect", None, k + m.end()
     return None
 
 
@@ -347,20 +355,35 @@ def r_hoist_chains(sig, body, arg):
                 break
         recv = re.sub(r"\s+", "", body[r0:it])
         parsed = _parse_chain(body, it)
-        if not recv or parsed is None or not parsed[0]:
+        if not recv or parsed is None or not parsed[1]:
             pos = it + 1
             continue
-        closures, kind, targ, end = parsed
+        zip_recv, closures, kind, targ, end = parsed
         n += 1
         lines = []
-        binders = []
-        prev_val = "%s[vx_i]" % recv
-        for idx, (pat, expr) in enumerate(closures):
+        if zip_recv:
+            # first closure takes a pair pattern (A, B)
+            pat0 = closures[0][0].strip()
+            mm = re.match(r"\(\s*&?\s*(\w+)\s*,\s*&?\s*(\w+)\s*\)$", pat0)
+            if not mm:
+                pos = it + 1
+                n -= 1
+                continue
+            lines.append("        let %s = %s[vx_i];" % (mm.group(1), recv))
+            lines.append("        let %s = %s[vx_i];" % (mm.group(2), zip_recv))
+            e0, _ = _strip_deref(closures[0][1], [mm.group(1), mm.group(2)])
+            prev_val = e0
+            rest = closures[1:]
+            bound = "vx_min(%s.len(), %s.len())" % (recv, zip_recv)
+        else:
+            prev_val = "%s[vx_i]" % recv
+            rest = closures
+            bound = "%s.len()" % recv
+        for idx, (pat, expr) in enumerate(rest):
             p = pat.strip()
             if p.startswith("&"):
                 p = p[1:].strip()
             names = _binder_names(p)
-            last = idx == len(closures) - 1
             lines.append("        let %s = %s;" % (p, prev_val))
             e2, _ = _strip_deref(expr, names)
             if e2.startswith("(") and _match_paren(e2, 0) == len(e2) - 1:
@@ -368,12 +391,12 @@ def r_hoist_chains(sig, body, arg):
             prev_val = e2
         if kind == "sum":
             acc = "vx_sum%d" % n
-            pre = "let mut %s: %s = 0;\n    for vx_i in 0..%s.len() {\n%s\n        %s += %s;\n    }\n    " % (
-                acc, targ, recv, "\n".join(lines), acc, prev_val)
+            pre = "let mut %s: %s = 0;\n    for vx_i in 0..%s {\n%s\n        %s += %s;\n    }\n    " % (
+                acc, targ, bound, "\n".join(lines), acc, prev_val)
         else:
             acc = "vx_vec%d" % n
-            pre = "let mut %s = Vec::new();\n    for vx_i in 0..%s.len() {\n%s\n        %s.push(%s);\n    }\n    " % (
-                acc, recv, "\n".join(lines), acc, prev_val)
+            pre = "let mut %s = Vec::new();\n    for vx_i in 0..%s {\n%s\n        %s.push(%s);\n    }\n    " % (
+                acc, bound, "\n".join(lines), acc, prev_val)
         st = _stmt_start(body, r0)
         body = body[:st] + pre + body[st:r0] + acc + body[end:]
         pos = st + len(pre)
@@ -395,7 +418,7 @@ def r_poly_binop(sig, body, arg):
             depth -= 1
         elif depth == 0 and ch in "+-" and k > 0 and e[k - 1] == " " and k + 1 < len(e) and e[k + 1] == " ":
             fn = "poly_sub" if ch == "-" else "poly_add"
-            new = "let %s = %s(%s, %s);" % (arg, fn, e[:k].strip(), e[k + 1:].strip())
+            new = "let %s = Polynomial::%s(%s, %s);" % (arg, fn, e[:k].strip(), e[k + 1:].strip())
             return sig, body[:m.start()] + new + body[m.end():], 1
     return sig, body, 0
 
@@ -406,6 +429,90 @@ def r_iter_mut_opassign(sig, body, arg):
     pat = re.compile(r"for\s+(\w+)\s+in\s+(\w+)\.iter_mut\(\)\s*\{\s*\*\1\s*([*+\-])=\s*([^;]+);\s*\}")
     body, n = pat.subn(lambda m: "let vx_len = %s.len();\n    for vx_i in 0..vx_len {\n        %s[vx_i] = %s[vx_i] %s %s;\n    }" % (
         m.group(2), m.group(2), m.group(2), m.group(3), m.group(4)), body)
+    return sig, body, n
+
+
+def r_into_iter_enumerate(sig, body, arg):
+    """R4: `for (I, C) in X.into_iter().enumerate() {` -> `for I in 0..X.len() { let C = X[I];`
+    (also `.iter().enumerate()` with C by value, a leading `*C` / `C.clone()` becoming `C`)."""
+    pat = re.compile(r"for\s+\(\s*(\w+)\s*,\s*(\w+)\s*\)\s+in\s+([\w.]+?)\.(?:into_iter|iter)\(\)\.enumerate\(\)\s*\{")
+    body, n = pat.subn(lambda m: "for %s in 0..%s.len() {\n                let %s = %s[%s];" % (
+        m.group(1), m.group(3), m.group(2), m.group(3), m.group(1)), body)
+    return sig, body, n
+
+
+def r_index_opassign(sig, body, arg):
+    """operator-assign desugaring on an indexed element: `V[I] OP= E;` -> `V[I] = V[I] OP E;`
+    (OpAssign == Op for Felt is discharged by U-FELT)."""
+    body, n = _sub(r"(\b\w+\[\w+\])\s*([+\-*])=\s*([^;]+);", r"\1 = \1 \2 \3;", body)
+    return sig, body, n
+
+
+def r_self_output(sig, body, arg):
+    """R1: `Self::Output` -> the concrete output type name."""
+    ty = arg or "Polynomial"
+    sig, a = _sub(r"\bSelf::Output\b", ty, sig)
+    body, b = _sub(r"\bSelf::Output\b", ty, body)
+    return sig, body, a + b
+
+
+def r_poly_tail_expr(sig, body, arg):
+    """R14: a function body that is a single operator expression over Polynomial operands
+    (`self + (-rhs)`, `self + rhs`, `-self` ...) becomes calls of the extracted impls:
+    poly_add / poly_sub / poly_neg."""
+    inner = body.strip()
+    if not (inner.startswith("{") and inner.endswith("}")):
+        return sig, body, 0
+    e = inner[1:-1].strip()
+
+    def strip_parens(x):
+        x = x.strip()
+        while x.startswith("(") and _match_paren(x, 0) == len(x) - 1:
+            x = x[1:-1].strip()
+        return x
+
+    def conv(x):
+        x = strip_parens(x)
+        depth = 0
+        for k in range(len(x) - 1, 0, -1):
+            ch = x[k]
+            if ch in ")]}":
+                depth += 1
+            elif ch in "([{":
+                depth -= 1
+            elif depth == 0 and ch in "+-" and x[k - 1] == " " and k + 1 < len(x) and x[k + 1] == " ":
+                fn = "poly_add" if ch == "+" else "poly_sub"
+                return "Polynomial::%s(%s, %s)" % (fn, conv(x[:k]), conv(x[k + 1:]))
+        if x.startswith("-"):
+            return "Polynomial::poly_neg(%s)" % conv(x[1:])
+        if not re.match(r"^&?\w+$", x):
+            raise ValueError(x)
+        return x
+    try:
+        out = conv(e)
+    except ValueError:
+        return sig, body, 0
+    if out == e:
+        return sig, body, 0
+    return sig, "{\n    " + out + "\n}", 1
+
+
+def r_table_refs(sig, body, arg):
+    """R12: references to the constant tables / n^-1 constants become calls of the prelude
+    functions that carry the table contracts (discharged by U-TAB on the real tables)."""
+    n = 0
+    body, c = _sub(r"&FELT_BITREVERSED_POWERS_INVERSE_1024\b", "vx_tab_inv()", body); n += c
+    body, c = _sub(r"&FELT_BITREVERSED_POWERS_1024\b", "vx_tab_fwd()", body); n += c
+    body, c = _sub(r"\bFELT_NINV_(\d+)\b", r"vx_ninv(\1)", body); n += c
+    return sig, body, n
+
+
+def r_trait_fn_calls(sig, body, arg):
+    """R1: `Felt::fft(` / `Felt::ifft(` (trait default methods at Self := Felt) -> the extracted
+    free functions felt_fft / felt_ifft; `self.clone()` on Polynomial -> vx_clone_poly(self)."""
+    n = 0
+    body, c = _sub(r"\bFelt::(fft|ifft)\(", r"felt_\1(", body); n += c
+    body, c = _sub(r"\bself\.clone\(\)", "vx_clone_poly(self)", body); n += c
     return sig, body, n
 
 
@@ -424,6 +531,12 @@ RULES = {
     "HoistChains": r_hoist_chains,
     "PolyBinOp": r_poly_binop,
     "IterMutOpAssign": r_iter_mut_opassign,
+    "IntoIterEnumerate": r_into_iter_enumerate,
+    "IndexOpAssign": r_index_opassign,
+    "SelfOutput": r_self_output,
+    "PolyTailExpr": r_poly_tail_expr,
+    "TableRefs": r_table_refs,
+    "TraitFnCalls": r_trait_fn_calls,
 }
 RULE_IDS = {"Self": "R1", "Generic": "R1", "BoolAssign": "R2", "ForUnderscore": "R3",
             "BitVecIndex": "R6"}
